@@ -574,6 +574,7 @@ func runC12(o *Out, rng *RNG, tier string, replay string) {
 	if thorough {
 		nSeq = 8000
 	}
+	hangs := 0
 	for i := 0; i < nSeq; i++ {
 		r := runSeq(genNext(rng, genCfg{listeners: false, misuse: rng.Chance(30), maxOps: 5 + rng.Intn(26), drain: rng.Chance(60)}, o), 400)
 		for _, p := range r.Hist {
@@ -584,6 +585,10 @@ func runC12(o *Out, rng *RNG, tier string, replay string) {
 		}
 		if r.Hang {
 			o.Fail("no_hang", "sequential history hung", "hang", r.desc())
+			hangs++
+			if hangs >= 3 {
+				break
+			}
 			continue
 		}
 		o.AddCase(fmt.Sprintf("CSeq %s %s %s", r.coqHist(), r.coqObs(), r.coqErrs()), r.desc(), "seq:"+r.key(), len(r.Hist) > 4)
